@@ -50,11 +50,32 @@ pub mod vu128s {
 // ---------------------------------------------------------------------------------------------
 // environment / observation
 
+/// Test Env: unlimited budget; persistent / instance entries outlive any ledger jump a history makes
+/// (archival + restoration of persistent entries is a network mechanism outside the properties; a
+/// *temporary* entry, by contrast, is gone for good when its TTL ends, and keeps the default minimum of 16).
 pub fn new_env() -> Env {
     let env = Env::new_with_config(EnvTestConfig { capture_snapshot_at_drop: false });
+    env.ledger().with_mut(|li| {
+        li.min_persistent_entry_ttl = 6_000_000;
+        li.max_entry_ttl = 6_312_000;
+    });
     #[allow(deprecated)]
     env.budget().reset_unlimited();
     env
+}
+
+/// Env in which persistent / instance entries outlive any ledger jump a history makes
+/// (archival + restoration of persistent entries is a network mechanism outside the properties;
+/// a *temporary* entry, by contrast, is gone for good when its TTL ends).
+pub fn new_env_longlived() -> Env {
+    new_env()
+}
+
+pub fn advance_ledgers(env: &Env, n: u32) {
+    let seq = env.ledger().sequence();
+    let ts = env.ledger().timestamp();
+    env.ledger().set_sequence_number(seq.saturating_add(n));
+    env.ledger().set_timestamp(ts.saturating_add(5 * n as u64));
 }
 
 pub type Snap = std::vec::Vec<(xdr::LedgerKey, xdr::LedgerEntry, Option<u32>)>;
